@@ -191,6 +191,11 @@ func (w *appWorld) client(r *sim.Rand) {
 		}
 		if q.method == "POST" || q.method == "PUT" || r.Chance(0.2) {
 			q.body = appText(w.seed, 7000+i, []int{0, 1, 10, 100, 300}[r.Intn(5)])
+			if r.Chance(0.15) {
+				// a body may itself begin with line breaks: only the one blank line after the headers is a separator
+				q.body = []string{"\n", "\r", "\r\n", "\r\n\r\n", "\n\n"}[r.Intn(5)] + "x" + q.body
+				w.Probes["bodies_starting_with_line_breaks"]++
+			}
 		}
 		q.resp = appText(w.seed, 9000+i, r.Range(1, 300))
 		w.cur, w.handled = q, 0
